@@ -300,6 +300,67 @@ PROPS['C10'] = {
     'assumptions': ['String values are determined by their character sequence', 'iterators visit exactly the elements of the slice'],
 }
 
+
+def c13_extra(pid, tier, seed, runs):
+    from .units import c13_replay
+    from .core import Failure
+    res = c13_replay.search(tier=tier, seed=seed)
+    out = {'obligations': [], 'failures': [], 'trusted_base': [], 'coverage': {
+        'bounded_standin': {'label': 'BOUNDED (not counted as proved)', 'what': 'structure-aware mutants of the corpus schemas + fixed malformed inputs, '
+                            'read and written by the real library under catch_unwind', 'mutants': res['mutants'], 'completed': res['completed'],
+                            'outcomes': res['outcomes'], 'slowest_ms': res['slowest_ms'], 'bound': '30 mutants per corpus document (quick) / 250 (thorough), one mutation each'}}}
+    for a in res['anomalies']:
+        f = Failure('C13-mutants', 'bounded:mutant#no-panic-no-abort-no-hang', f"{a['observed']} on mutant {a['mutant']}", [{'file': a.get('file', ''), 'line': 0, 'text': a['mutant'], 'what': 'input'}],
+                    a.get('text', ''), props=['C13'])
+        f.witness = a
+        out['failures'].append(f)
+    if res.get('error'):
+        class _I:
+            unit = 'C13-mutants'; status = 'inconclusive'; reason = 'mutant harness did not run: ' + res['error'][-300:]
+        out['inconclusive'] = _I()
+    return out
+
+
+def c13_witness(pid, fails, repo):
+    f = fails[0]
+    w = getattr(f, 'witness', None)
+    if w:
+        return {'found': True, 'input': {'mutant': w['mutant'], 'observed': w['observed'], 'file_text': w.get('text', '')[:3000]}}
+    return {'found': False}
+
+
+PROPS['C13'] = {
+    'units': [UnitR, UnitM, UnitS, UnitW, UnitK, UnitD], 'level': 'proof', 'design_ref': 'DESIGN.md 4.13', 'extra': c13_extra, 'witness': c13_witness,
+    'scope': 'SCOPED: panic freedom (no unwrap/expect/assert/overflow/index failure) and termination (decreases on every loop) of the functions '
+             'under contract in units R, M, S, W, K, D only (helpers_content.rs runtime, all writer functions, rename_keywords, the namespace table). '
+             'The roxmltree-driven reading code is outside Verus\' reach and gets a BOUNDED mutant run instead (labelled, not counted as proved).',
+    'level_text': 'For every exec function Verus verifies it also discharges the implicit obligations: preconditions of unwrap/expect/index, arithmetic '
+                  'overflow, reachability of assert!/assert_ne! (core::panicking::assert_failed requires false) and termination of loops. This check '
+                  'collects those `#safety` obligations of all units (for all inputs of those functions). In addition, as a bounded stand-in for the '
+                  'reader, structure-aware mutants of the corpus schemas plus fixed malformed inputs (self/mutual imports, self-extending types, '
+                  'non-XML) are run through the real read+write under catch_unwind.',
+    'level_note': 'NOT a whole-library claim: roxmltree, Inflector, url parsing, the import recursion and every reader function (try_from_node impls) are '
+                  'covered only by the bounded mutant run. Pure sub-expressions dropped by the extraction (listed in evidence) are assumed panic-free. '
+                  'Known finding: assert_ne!(append, Some(255)) in make_abbreviated_namespace is reachable with 255 colliding abbreviations.',
+    'assumptions': ['dropped pure sub-expressions do not panic', 'stand-in contracts of third-party crates'],
+}
+
+PROPS['C08'] = {
+    'units': [], 'level': 'translation_validation', 'design_ref': 'DESIGN.md 4.8', 'extra': l3_extra, 'witness': l3_witness,
+    'scope': 'per corpus program with complex types defined by extension (chains of depth 1..4, fan-out, bases declared before / after / in another '
+             'file, same or other namespace, own content empty / sequence / choice / attributes): the emitted struct of the derived type has the base '
+             'struct\'s members first, in order, then its own, and each element member keeps the prefix of the namespace that declared it',
+    'level_text': 'Translation validation with contracts: the independent reader computes, for every derived type, the member list base-first (recursively) '
+                  'and emits a shape contract (exhaustive destructuring pattern in that order + one typed projection per member); Verus\' front end '
+                  'type-checks it against the struct the current generator emits. The namespace clause is an attribute-text comparison '
+                  '(#[yaserde(prefix=..)] of each inherited/own element vs. the prefix of its declaring namespace). Per program, not for all schemas.',
+    'level_note': 'The L2 contract planned in DESIGN 4.8 on import_extension_fields itself (unit X) was NOT built: the function iterates roxmltree nodes '
+                  'and recurses into the reader, which is outside Verus\' reach here; member ORDER is checked through the destructuring pattern only as far '
+                  'as names and types distinguish members. Trusted: the independent reader.',
+    'technique': 'schema-derived ghost shape contracts (base members first) type-checked by Verus against the emitted structs; attribute-text comparison for namespaces',
+    'assumptions': ['independent schema reader implements XSD extension semantics (base content, then own content, then attributes in declaration order of each level)'],
+}
+
 PLANNED = 'claimed in DESIGN.md but the check is not built yet at this commit (listed here so that no unbuilt check is advertised)'
 NOT_APPLICABLE = {
     'C01': 'Compilability of a whole emitted file is decided by rustc name resolution/type checking and yaserde_derive proc-macro expansion; no pre/postcondition of a zeep function entails it and Verus cannot load the dependency crates (DESIGN 4.1).',
@@ -309,8 +370,8 @@ NOT_APPLICABLE = {
     'C12': 'Determinism across processes/hash seeds/registration orders is a hyperproperty over pairs of runs (HashMap RandomState, flags persisting across calls); not expressible as a per-call contract without a complete functional spec of the generator (DESIGN 4.12).',
     'C17': 'Process-level observables (exit status, panics as error path, clap, File::create effects); no function result to attach a postcondition to and no file-system model in Verus/Kani (DESIGN 4.17).',
     'C18': 'Send/Sync are auto traits decided by rustc\'s trait solver over the real reqwest future types; neither verifier has a notion of auto traits (DESIGN 4.18).',
-    'C08': PLANNED, 'C09': PLANNED,
-    'C13': PLANNED,
+    'C09': PLANNED,
+    
 }
 NOTES = ('All checks: ./check <id> [--tier quick|thorough]; exit 0 ok, 1 VIOLATION, 2 inconclusive (lost anchor / unsupported '
          'construct / solver limit / vacuity guard) which is never an alarm. Known findings: /verif/known_findings.json. '
